@@ -99,6 +99,8 @@ def draw_network(d, tier, cfg=None, max_tensors=4, swaps=False, syms=C.SYMS, odd
             for _ in range(ns):
                 a, b = d.draw(st.permutations(all_labels))[:2]
                 net['swap'].append([a, b])
+                if (trace_cross_swaps(net) or partial_parallel_cross_swaps(net)) and not P.chance(d, 1, 12):
+                    net['swap'].pop()      # known findings (see known_findings.json): keep these classes rare
     net['api'] = d.draw(st.sampled_from(['ncon', 'einsum', 'ncon']))
     return net
 
@@ -146,6 +148,51 @@ def valid_order(inds, d=None, rng=None):
         order.extend(shuffle(inner))
         remaining -= set(inner)
     return order
+
+
+def trace_cross_swaps(net):
+    """Swap pairs joining a traced label (both endpoints on one tensor) with a label that has no endpoint on that tensor."""
+    where = {}
+    for ti, ii in enumerate(net['inds']):
+        for lab in ii:
+            where.setdefault(lab, []).append(ti)
+    out = []
+    for a, b in net.get('swap', []):
+        for x, y in ((a, b), (b, a)):
+            wx = where.get(x, [])
+            if len(wx) == 2 and wx[0] == wx[1] and wx[0] not in where.get(y, []):
+                out.append([a, b])
+                break
+    return out
+
+
+def partial_parallel_cross_swaps(net):
+    """Swap pairs (a, b) where a is one of >= 2 labels contracted between the same two tensors T1, T2, b has no endpoint
+    on T1 or T2, and b is not swapped with every one of those parallel labels."""
+    where = {}
+    for ti, ii in enumerate(net['inds']):
+        for lab in ii:
+            where.setdefault(lab, []).append(ti)
+    pairs = {}
+    for lab, w in where.items():
+        if lab > 0 and len(w) == 2 and w[0] != w[1]:
+            pairs.setdefault(frozenset(w), []).append(lab)
+    sw = {frozenset(p) for p in net.get('swap', []) if p[0] != p[1]}
+    # an odd number of identical swaps acts as one, an even number cancels
+    cnt = {}
+    for p in net.get('swap', []):
+        cnt[frozenset(p)] = cnt.get(frozenset(p), 0) + 1
+    act = {k_ for k_, v in cnt.items() if v % 2}
+    out = []
+    for pr, labs in pairs.items():
+        if len(labs) < 2:
+            continue
+        others = {lab for lab, w in where.items() if not (set(w) & pr)}
+        for b in others:
+            crossed = [a for a in labs if frozenset((a, b)) in act]
+            if 0 < len(crossed) < len(labs):
+                out.append([crossed[0], b])
+    return out
 
 
 def label_letter(lab, k):
